@@ -125,15 +125,33 @@ def samples(x, c, d, dtype):
     return np.array([float(v) for v in ex], dtype=float), ex
 
 
-def check_call(x, n, m, c, d, dtype):
-    """One fd_derivative call.  returns (problem or None, per-point info list or None)
-    problem = (key tail, detail);  info[i] = (err, allowance, exact, ratio_design_units, cond_ratio)"""
-    from numdifftools.fornberg import fd_derivative
+def expectation(x, n, m, c, d, dtype):
+    """Oracle side of one case (independent of the library): the samples and, per grid point,
+    (exact derivative as Fraction, allowance, sum|w||f|, sum S|f|).  None if the integer samples are not
+    exactly representable."""
     N = len(x)
     mm = n // 2 + m
     fx, _ = samples(x, c, d, dtype)
     if fx is None:
-        return 'not-representable', None
+        return None, None
+    st = stencils(x, n, mm)
+    absf = np.abs(fx.astype(float))
+    exp = []
+    for i in range(N):
+        lo, hi, aw, s = st[i]
+        f = absf[lo:hi]
+        sw = float(np.dot(aw, f))
+        ss = float(np.dot(s, f))
+        exp.append((lg.monomial_derivative(d, c, n, x[i]), C_ALLOW * EPS * ss, sw, ss))
+    return fx, exp
+
+
+def check_call(x, n, m, c, d, dtype, fx, exp):
+    """One fd_derivative call against the expectation.  returns (problem or None, errors or None)
+    problem = (key tail, detail);  errors[i] = |output_i - exact_i| as float"""
+    from numdifftools.fornberg import fd_derivative
+    N = len(x)
+    mm = n // 2 + m
     xa = np.array(x, dtype=np.int64 if dtype == 'int64' else float)
     fx_before = fx.copy()
     with warnings.catch_warnings(), np.errstate(all='ignore'):
@@ -141,48 +159,41 @@ def check_call(x, n, m, c, d, dtype):
         try:
             du = fd_derivative(fx, xa, n, m)
         except Exception as e:
-            return ('raised-%s' % type(e).__name__, 'fd_derivative raised %s: %s' % (type(e).__name__, e)), None
+            return ('raised-%s:%s:%s-samples' % (type(e).__name__, 'N=Lmin' if N == 2 * mm + 2 else 'N>Lmin', dtype),
+                    'n=%d m=%d N=%d: fd_derivative raised %s: %s' % (n, m, N, type(e).__name__, e)), None
     du = np.asarray(du)
     if du.shape != (N,):
-        return ('length', 'output shape %r for an input of length %d' % (du.shape, N)), None
+        return ('length', 'n=%d m=%d: output shape %r for an input of length %d' % (n, m, du.shape, N)), None
     if not np.array_equal(fx, fx_before):
         return ('input-modified', 'the sample array was modified in place'), None
     if du.dtype.kind not in 'fiu' or not np.all(np.isfinite(du.astype(float))):
         return ('nonfinite', 'output dtype %s, values %r' % (du.dtype, du.tolist())), None
-    st = stencils(x, n, mm)
-    absf = np.abs(fx.astype(float))
-    info = []
+    errs = []
     worst = None
     for i in range(N):
-        lo, hi, aw, s = st[i]
-        exact = lg.monomial_derivative(d, c, n, x[i])
+        exact, allow, sw, ss = exp[i]
         got = Fraction(int(du[i])) if du.dtype.kind in 'iu' else Fraction(float(du[i]))
         err = float(abs(got - exact))
-        f = absf[lo:hi]
-        sw = float(np.dot(aw, f))
-        ss = float(np.dot(s, f))
-        allow = C_ALLOW * EPS * ss
-        info.append((err, allow, float(exact), (err / (EPS * sw)) if sw > 0 else (0.0 if err == 0 else float('inf')),
-                     ss / sw if sw > 0 else 1.0))
+        errs.append(err)
         if not err <= allow:
             over = err / allow if allow > 0 else float('inf')
             if worst is None or over > worst[0]:
                 worst = (over, i)
     if worst is None:
-        return None, info
+        return None, errs
     i = worst[1]
-    err, allow, exact, rd, _ = info[i]
+    exact, allow, sw, ss = exp[i]
     direction = 'increasing' if x[-1] > x[0] else 'decreasing'
-    if dtype == 'int64':
-        tail = 'value:integer-samples'
+    if dtype == 'int64' and du.dtype.kind in 'iu':
+        tail = 'value:integer-samples-integer-output'      # the result was forced into an integer array
     else:
-        tail = 'value:%s:%s' % (region(i, N, mm), direction)
-    nbad = sum(1 for e in info if not e[0] <= e[1])
+        tail = 'value:%s:%s' % (region(i, N, mm), direction) + (':integer-samples' if dtype == 'int64' else '')
+    nbad = sum(1 for e, q in zip(errs, exp) if not e <= q[1])
     detail = ('n=%d m=%d N=%d monomial (x-%r)^%d: point %d (%s, x=%r): got %r, exact %.17g, error %.3g > allowance '
               '%.3g (= %.3g eps*sum|w||f|); %d of %d points outside; output dtype %s'
-              % (n, m, N, c, d, i, point_cell(i, N, mm) or 'interior', x[i], du[i].item(), exact, err, allow, rd,
-                 nbad, N, du.dtype))
-    return (tail, detail), info
+              % (n, m, N, c, d, i, point_cell(i, N, mm) or 'interior', x[i], du[i].item(), float(exact), errs[i],
+                 allow, errs[i] / (EPS * sw) if sw > 0 else float('inf'), nbad, N, du.dtype))
+    return (tail, detail), errs
 
 
 def work(chunk, thorough=False, seed=0):
@@ -194,36 +205,41 @@ def work(chunk, thorough=False, seed=0):
             x = x[::-1]
         dtype = 'int64' if kind == 'integer' else 'float64'
         cs = centres(x, thorough)
-        if not thorough and N == 60 and N > 4 * mm + 4 and len(cs) > 1:
+        if not thorough and N == 60 and len(cs) > 1:
             # quick tier: the long grid takes one of the two centres (seed-rotated; both in thorough)
             cs = [cs[(seed + n + m + (direction == 'decreasing')) % len(cs)]]
         for c in cs:
             for d in range(0, 2 * mm + 1):
                 if d == 0 and c != cs[0]:
                     continue                      # (x-c)^0 is the same monomial for every c
-                prob, info = check_call(x, n, m, c, d, dtype)
-                if prob == 'not-representable':
+                fx, exp = expectation(x, n, m, c, d, dtype)
+                if fx is None:
                     acc.count('integer-samples-not-exactly-representable-skipped')
                     continue
+                # coverage is decided from the oracle side only
                 cells, nontrivial = [], False
-                if info is not None:
-                    for i, (err, allow, exact, rd, cr) in enumerate(info):
-                        acc.maxi('worst_error_in_allowance_units(100*eps*sum_S|f|)/%s-samples' % dtype,
-                                 err / allow if allow > 0 else (0.0 if err == 0 else float('inf')))
-                        if dtype == 'float64':
-                            acc.maxi('worst_error_in_eps*sum|w||f|_units(DESIGN_allowance_1e4)', rd)
-                            acc.maxi('max_conditioning_ratio_sum_S|f|/sum|w||f|', cr)
-                        if exact != 0 and allow <= NONTRIVIAL_REL * abs(exact):
-                            nontrivial = True
-                            pc = point_cell(i, N, mm)
-                            if pc:
-                                cells.append('n=%d,m=%d/%s' % (n, m, pc))
-                    acc.count('grid_points_checked', len(info))
+                for i, (exact, allow, sw, ss) in enumerate(exp):
+                    if exact != 0 and allow <= NONTRIVIAL_REL * abs(exact):
+                        nontrivial = True
+                        pc = point_cell(i, N, mm)
+                        if pc:
+                            cells.append('n=%d,m=%d/%s' % (n, m, pc))
+                    if dtype == 'float64' and sw > 0:
+                        acc.maxi('max_conditioning_ratio_sum_S|f|/sum|w||f|', ss / sw)
                 if nontrivial:
                     cells += ['grid=' + kind, 'direction=' + direction, 'degree=%d' % d,
                               'length=' + ('Lmin' if N == 2 * mm + 2 else 'Lmin+1' if N == 2 * mm + 3 else
                                            '2Lmin' if N == 4 * mm + 4 else '60' if N == 60 else 'other'),
                               'centre=' + ('0' if c == 0 else 'offset')]
+                prob, errs = check_call(x, n, m, c, d, dtype, fx, exp)
+                if errs is not None:
+                    for err, (exact, allow, sw, ss) in zip(errs, exp):
+                        acc.maxi('worst_error_in_allowance_units(100*eps*sum_S|f|)/%s-samples' % dtype,
+                                 err / allow if allow > 0 else (0.0 if err == 0 else float('inf')))
+                        if dtype == 'float64':
+                            acc.maxi('worst_error_in_eps*sum|w||f|_units(DESIGN_allowance_1e4)',
+                                     err / (EPS * sw) if sw > 0 else (0.0 if err == 0 else float('inf')))
+                    acc.count('grid_points_checked', len(errs))
                 acc.case((n, m, N, kind, direction, c, d), nontrivial=nontrivial, cell=cells,
                          outcome=(n, m, d, prob[0] if prob else 'ok'))
                 if prob:
@@ -295,9 +311,10 @@ def replay(case):
     dtype = case.get('dtype', 'float64')
     c = int(case['c']) if dtype == 'int64' else float(case['c'])
     d = int(case['d'])
-    prob, info = check_call(x, n, m, c, d, dtype)
-    if prob == 'not-representable':
+    fx, exp = expectation(x, n, m, c, d, dtype)
+    if fx is None:
         raise ValueError('recorded case is outside the explored space (samples not representable)')
+    prob, _ = check_call(x, n, m, c, d, dtype, fx, exp)
     text = 'n=%d m=%d N=%d grid=%s %s c=%r d=%d dtype=%s -> %s' % (
         n, m, N, case['grid'], case['direction'], c, d, dtype, ('%s: %s' % prob) if prob else 'ok')
     return prob is None, text
